@@ -38,6 +38,7 @@ func init() {
 			floors = append(floors, "pass-credentials-cross-origin:"+p)
 		}
 	}
+	floors = append(floors, histRequiredFloors...)
 	core.Register(&core.Check{
 		ID:    prop,
 		Level: "exploration",
@@ -48,6 +49,8 @@ func init() {
 			"LocateChart --repo and Pull.Run --repo through a loopback proxy); the full 180 x 360 (quick) / 180 x 720 (thorough) repository x chart product is run at getter level and all 180 repositories at index level; " +
 			"the other call paths run the repository spellings with at most 1 deviation from http://repo.test (12) x every authority spelling of the chart (180, path /charts/x.tgz; thorough: all 4 paths, 720) plus the 5 bare references, " +
 			"thorough adds the 44 two-deviation repositories; quick crosses redirects with the paths that hand URLs to the getter differently, thorough crosses everything. " +
+			"Plus histories on ONE HTTPGetter instance (options are sticky): all ordered pairs of Get calls over the 12 (thorough 56) repository spellings, each call either re-configuring the getter " +
+			"(WithURL, WithBasicAuth of its own credentials, WithPassCredentialsAll on/off) or inheriting, the file on the origin of either repository or a third one; thorough also all ordered triples over 6 origin relations. " +
 			"distinct = the case tuple; a case is non-trivial when Helm issued at least one request",
 		Run:    run,
 		Replay: replay,
@@ -58,6 +61,7 @@ func init() {
 			"in-memory paths: real getter.HTTPGetter + real net/http client over net.Pipe; https is a real TLS session terminated in-process with a self-signed Ed25519 certificate, client side InsecureSkipVerify (the transport is injected, so Helm's own TLS options are bypassed there)",
 			"LocateChart and Pull.Run hard-code getter.All(settings): they are reached through HTTP_PROXY/HTTPS_PROXY pointing at a loopback listener of the worker process; https is intercepted after CONNECT with the same certificate and --insecure-skip-tls-verify",
 			"the request's port is the port net/http dialled (default filled in by net/http), the host is the Host header",
+			"getter-history: credentials number k (configured in the same call as repository URL R_k) may appear on a later request only on R_k's origin or while pass-credentials is in force for that call; sticky options are Helm's documented design and are modelled, not judged",
 			"OCI registries and plugin getters are outside the property (basic-auth repository credentials only)",
 		},
 		RequiredFloors: floors,
@@ -180,6 +184,12 @@ func enumerate(thorough bool, only string, f func(Case)) spaceInfo {
 		block(path, repos1, chH, allCombos(path), false)
 		block(path, repos2, ch1, coreCombos(path), false)
 	}
+	// histories of Get calls on one getter instance
+	np, nt := enumerateHistories(thorough, emit)
+	info.Bounds["history_repo_spellings_pairs"] = fmt.Sprint(len(histRepos(thorough)))
+	info.Bounds["history_ordered_pairs_of_calls"] = fmt.Sprint(np)
+	info.Bounds["history_repo_spellings_triples"] = fmt.Sprint(len(histReposTriples))
+	info.Bounds["history_ordered_triples_of_calls"] = fmt.Sprint(nt)
 	return info
 }
 
@@ -196,7 +206,12 @@ func evaluate(c Case, res Result) evaluated {
 	ev := evaluated{Case: c, Err: res.Err}
 	set := map[string]bool{}
 	for _, r := range res.Recs {
-		v := classify(c.Repo, c.Pass, r)
+		var v verdict
+		if c.Path == pHistory {
+			v = classifyHist(c, r)
+		} else {
+			v = classify(c.Repo, c.Pass, r)
+		}
 		ev.Verdicts = append(ev.Verdicts, v)
 		set[v.Class] = true
 	}
@@ -224,6 +239,14 @@ func evaluate(c Case, res Result) evaluated {
 // the request's origin differs from the repository's (host > scheme > port) and
 // the form of the chart reference.
 func violationsOf(ev evaluated) []core.Violation {
+	if ev.Case.Path == pHistory {
+		key, what, bad := histViolation(ev)
+		if !bad {
+			return nil
+		}
+		rd, _ := json.Marshal(ev.Case)
+		return []core.Violation{{Property: prop, Key: core.SanitizeKey(key), What: what, Replay: rd}}
+	}
 	rank := func(v verdict) int {
 		r := map[string]int{"chart": 0, "index": 1, "prov": 2, "other": 3}[kindOfPath(v.Rec.Path)]
 		if v.Redirect {
@@ -274,6 +297,10 @@ func replay(_ *core.Ctx, data json.RawMessage) []core.Violation {
 // floorsOf records the vacuity guards and observations of one evaluated case.
 func floorsOf(c *core.Ctx, ev evaluated) {
 	cs := ev.Case
+	if cs.Path == pHistory {
+		histFloors(c, ev)
+		return
+	}
 	ro, err := originOfURL(cs.Repo)
 	if err != nil {
 		return
